@@ -1,40 +1,87 @@
 /-
-  C02 — non-vacuity of the `sqrt` law over ℝ.
+  C02 — non-vacuity of the analytic hypotheses over ℝ.
 
-  Several C02 theorems (`seg*_scale_length`, `cyl_scale_measures`, `cone_scale_measures`, …) assume
-  the law `∀ x ≥ 0, M.sqrt x · M.sqrt x = x ∧ 0 ≤ M.sqrt x`.  It cannot hold over ℚ (√2), so the
-  witness is given over ℝ with `Real.sqrt`.  Kept in a separate file because it needs a heavier
-  import than the property file itself.  Only `example`s, no new theorems.
+  Several C02 theorems assume laws about `M.sqrt`, `M.floor`, `M.cos`, `M.sin`, `M.acos` that
+  cannot hold over ℚ (√2, …): the `sqrt` law, the floor law with integrality, `cos² + sin² = 1`
+  for every angle, parity, and the polar-angle law `PolarLaw` used for `Arc2D.reflect`.  Here they
+  are all shown to hold SIMULTANEOUSLY for the real functions (`Real.sqrt`, `Real.cos`, `Real.sin`,
+  `Real.arccos`, `Real.pi`, `⌊·⌋`).  Kept in a separate file because it needs heavier imports than
+  the property file itself.  Only a witness definition and `example`s, no new theorems.
 -/
 import LbgVerif.Props.C02
 import Mathlib.Analysis.Real.Sqrt
+import Mathlib.Analysis.SpecialFunctions.Trigonometric.Inverse
 
 namespace Lbg.Props.C02
-open Lbg
+open Lbg Lbg.Gen
 
-/-- Math operations over ℝ with the real square root; `cos ≡ 3/5`, `sin ≡ -4/5` (any point of the
-unit circle would do). -/
+/-- The real-number math operations. -/
 noncomputable def Mr : MathOps ℝ where
   sqrt := Real.sqrt
-  sin := fun _ => -4 / 5
-  cos := fun _ => 3 / 5
-  tan := fun _ => 0
-  acos := fun _ => 0
-  asin := fun _ => 0
+  sin := Real.sin
+  cos := Real.cos
+  tan := Real.tan
+  acos := Real.arccos
+  asin := Real.arcsin
   atan2 := fun _ _ => 0
-  pi := 3
+  pi := Real.pi
   floor := fun x => ((⌊x⌋ : ℤ) : ℝ)
 
-/-- The `sqrt` law, `sqrt 1 = 1`, `cos² + sin² = 1` (every angle), the floor law, integrality of
-`floor` and `0 < π` hold together for `Mr`. -/
+/-- The `sqrt` law, `sqrt 1 = 1`, `cos² + sin² = 1` and parity for every angle, the floor law,
+integrality of `floor`, `0 < π`, `2π`-periodicity in the form used by `arc2_rotate_p1/p2`, and the
+angle-addition law hold together for `Mr`. -/
 example :
     (∀ x : ℝ, 0 ≤ x → Mr.sqrt x * Mr.sqrt x = x ∧ 0 ≤ Mr.sqrt x) ∧ Mr.sqrt 1 = 1 ∧
     (∀ θ : ℝ, Mr.cos θ * Mr.cos θ + Mr.sin θ * Mr.sin θ = 1) ∧
+    (∀ θ : ℝ, Mr.cos (-θ) = Mr.cos θ ∧ Mr.sin (-θ) = -Mr.sin θ) ∧
     (∀ x : ℝ, Mr.floor x ≤ x ∧ x < Mr.floor x + 1) ∧ (∀ x : ℝ, ∃ n : ℤ, Mr.floor x = n) ∧
-    0 < Mr.pi :=
+    0 < Mr.pi ∧
+    (∀ (x : ℝ) (m : ℤ), Mr.cos (x - m * (2 * Mr.pi)) = Mr.cos x ∧
+        Mr.sin (x - m * (2 * Mr.pi)) = Mr.sin x) ∧
+    (∀ x θ : ℝ, Mr.cos (x + θ) = Mr.cos x * Mr.cos θ - Mr.sin x * Mr.sin θ ∧
+        Mr.sin (x + θ) = Mr.sin x * Mr.cos θ + Mr.cos x * Mr.sin θ) :=
   ⟨fun x hx => ⟨Real.mul_self_sqrt hx, Real.sqrt_nonneg x⟩, Real.sqrt_one,
-   fun _ => by simp only [Mr]; norm_num,
+   fun θ => by simp only [Mr]; nlinarith [Real.sin_sq_add_cos_sq θ],
+   fun θ => ⟨Real.cos_neg θ, Real.sin_neg θ⟩,
    fun x => ⟨Int.floor_le x, Int.lt_floor_add_one x⟩, fun x => ⟨⌊x⌋, rfl⟩,
-   by simp only [Mr]; norm_num⟩
+   Real.pi_pos,
+   fun x m => ⟨Real.cos_sub_int_mul_two_pi x m, Real.sin_sub_int_mul_two_pi x m⟩,
+   fun x θ => ⟨Real.cos_add x θ, Real.sin_add x θ⟩⟩
+
+/-- The polar-angle law (hypothesis of `arc2_reflect_endpoints_of_polar`) holds for the real
+functions: for `q` at distance `ρ > 0` from the centre, the `acos`-based angle `φ` measured by
+`arc2_a_from_pt` satisfies `ρ cos φ = Δx`, `ρ sin φ = Δy`. -/
+example : PolarLaw Mr := by
+  intro b q ρ hρ hd
+  simp only [distSq2, V2.sub, V2.normSq] at hd
+  simp only [arc2_a_from_pt, Mr]
+  set dx := q.x - b.c.x with hdx
+  set dy := q.y - b.c.y with hdy
+  have hs : Real.sqrt (dx * dx + dy * dy) = ρ := by
+    rw [hd]; exact Real.sqrt_mul_self hρ.le
+  rw [hs, Real.sqrt_one]
+  have hq : (1 * dx + 0 * dy) / (1 * ρ) = dx / ρ := by ring
+  rw [hq]
+  have hx2 : dx * dx ≤ ρ * ρ := by nlinarith [mul_self_nonneg dy]
+  have hb : -ρ ≤ dx ∧ dx ≤ ρ := abs_le_of_sq_le_sq' (by nlinarith : dx ^ 2 ≤ ρ ^ 2) hρ.le
+  have h1 : -1 ≤ dx / ρ := by
+    rw [le_div_iff₀ hρ]; linarith [hb.1]
+  have h2 : dx / ρ ≤ 1 := by
+    rw [div_le_iff₀ hρ]; linarith [hb.2]
+  have hcos : Real.cos (Real.arccos (dx / ρ)) = dx / ρ := Real.cos_arccos h1 h2
+  have hsin : Real.sin (Real.arccos (dx / ρ)) = |dy| / ρ := by
+    rw [Real.sin_arccos]
+    have : 1 - (dx / ρ) ^ 2 = (dy / ρ) ^ 2 := by
+      field_simp; nlinarith
+    rw [this, Real.sqrt_sq_eq_abs, abs_div, abs_of_pos hρ]
+  have hdet : (1 * dy - 0 * dx < 0) ↔ dy < 0 := by
+    constructor <;> intro h <;> linarith
+  by_cases hneg : dy < 0
+  · have c : ¬¬(1 * dy - 0 * dx < 0) := not_not.mpr (hdet.mpr hneg)
+    rw [if_neg c, Real.cos_two_pi_sub, Real.sin_two_pi_sub, hcos, hsin, abs_of_neg hneg]
+    constructor <;> field_simp
+  · have c : ¬(1 * dy - 0 * dx < 0) := fun h => hneg (hdet.mp h)
+    rw [if_pos c, hcos, hsin, abs_of_nonneg (not_lt.mp hneg)]
+    constructor <;> field_simp
 
 end Lbg.Props.C02
